@@ -128,6 +128,36 @@ def histories(tier):
 
     hs.append(H("external_source_from_other_file", mixed))
 
+    def existing_concurrent(d):
+        m, kw, info = existing(d)
+        return m, dict(kw, max_workers=2), info
+
+    hs.append(H("existing_destination_two_workers", existing_concurrent))
+
+    def inplace_concurrent(d):
+        m, kw, info = inplace(d)
+        return m, dict(kw, max_workers=2), info
+
+    hs.append(H("resave_in_place_two_workers", inplace_concurrent))
+
+    def sharded_concurrent(d):
+        for nm, content in (("w.data", b"UNSHARDED-OLD"), ("other.bin", b"neighbour")):
+            with open(os.path.join(d, nm), "wb") as f:
+                f.write(content)
+        m = _model([ir.Tensor(_arr(5, 1)), ir.Tensor(_arr(3, 2)), ir.Tensor(_arr(5, 3)), ir.Tensor(_arr(3, 4))])
+        return m, dict(external_data="w.data", size_threshold_bytes=0, max_shard_size_bytes=8, max_workers=4), {"sharded": True}
+
+    hs.append(H("sharded_four_workers", sharded_concurrent))
+
+    def lazy_concurrent(d):
+        m, kw, info = existing(d)
+        vals = list(m.graph.initializers.values())
+        vals[1].const_value = _raising_lazy(RuntimeError("boom"))
+        vals[1].const_value.name = vals[1].name
+        return m, dict(kw, max_workers=2), info
+
+    hs.append(H("lazy_tensor_raises_two_workers", lazy_concurrent, natural_exc=RuntimeError))
+
     for exc_name, exc in (("RuntimeError", RuntimeError("boom")), ("KeyboardInterrupt", KeyboardInterrupt()), ("SystemExit", SystemExit(3)), ("BaseException", _Boom())):
         def lazy(d, exc=exc):
             m, kw, info = existing(d)
@@ -218,7 +248,28 @@ def _do_save(h, d, plan):
     exc = None
     try:
         with fsfault.Patch(fs):
-            ir.save(model, os.path.join(d, "m.onnx"), **kw)
+            if (kw.get("max_workers") or 1) > 1:
+                # concurrent writer: run it under the cooperative scheduler's default schedule so that the
+                # sequence of file-system effects is deterministic and can be numbered
+                from mc import sched
+                from onnx_ir import external_data as ed
+
+                sc = sched.Scheduler([])
+                th, cf = sched.make_shims(sc)
+                saved = (ed.threading, ed.concurrent)
+                ed.threading, ed.concurrent = th, cf
+                try:
+                    out = sc.run(lambda _s: ir.save(model, os.path.join(d, "m.onnx"), **kw))
+                finally:
+                    ed.threading, ed.concurrent = saved
+                if sc.abort_reason is not None:
+                    raise common.HarnessError(f"C08 concurrent history aborted: {sc.abort_reason}")
+                if out[0] == "exc":
+                    raise out[1]
+            else:
+                ir.save(model, os.path.join(d, "m.onnx"), **kw)
+    except common.HarnessError:
+        raise
     except BaseException as e:  # noqa: BLE001
         exc = e
     finally:
@@ -407,7 +458,7 @@ def main(tier):
     r.assumptions += ["POSIX rename atomicity and page-cache survival of process death (tmpfs) are assumed",
                       "effects are intercepted at the granularity of library-visible calls (mkdtemp, open, write, truncate, close, copymode, replace, remove, rmdir); the kernel-copy and ndarray.tofile fast paths are disabled by the proxy files (covered functionally by C04)",
                       "cleanup effects (remove/rmdir) are crash points only, never made to fail",
-                      "serial writer only (the concurrent writer's failure path is explored by C09)"]
+                      "concurrent-writer histories run under the cooperative scheduler's default schedule (one deterministic interleaving per history; all interleavings are C09's subject)"]
     return r.finish()
 
 
